@@ -3,7 +3,7 @@
    Parts 2 and 3 (reflection over the tables and database cases of the working tree): Properties_C12_X86.v, Properties_C12_A64.v.
    Statements only; proofs are in coq/theories/RwInfo/*Proofs.v. *)
 From Coq Require Import NArith ZArith List Bool.
-From Verif Require Import RwInfo.RwModel RwInfo.FeatModel RwInfo.RwSpec RwInfo.RwProofs RwInfo.RegWrite RwInfo.RegWriteProofs RwInfo.A64RwModel RwInfo.A64RwProofs RwInfo.FeatProofs RwInfo.BridgeC05 RwInfo.FrameProofs RwInfo.CompleteProofs RwInfo.TopLevelProofs RegAlloc.RwRuleModel RegAlloc.RwRuleProofs.
+From Verif Require Import RwInfo.RwModel RwInfo.FeatModel RwInfo.RwSpec RwInfo.RwProofs RwInfo.RegWrite RwInfo.RegWriteProofs RwInfo.A64RwModel RwInfo.A64RwProofs RwInfo.FeatProofs RwInfo.BridgeC05 RwInfo.FrameProofs RwInfo.CompleteProofs RwInfo.TopLevelProofs RwInfo.MaskedFormsProofs RegAlloc.RwRuleModel RegAlloc.RwRuleProofs.
 Import ListNotations.
 Local Open Scope N_scope.
 
@@ -734,3 +734,49 @@ Proof.
   apply hw_byte_is_gp_write; assumption.
 Qed.
 Print Assumptions C12_C05_returned_masks_architectural.
+
+
+(* ==================================================================== round 7: {k} and memory forms of the move categories *)
+
+(* Narrowing moves under a {k} mask (vpmovqb xmm1 {k1}, zmm2 ...): merge-masking returns the destination READ with read mask = write mask,
+   {z} or an implicitly zeroing instruction returns it not read; write / extend masks are those of the unmasked form (C12_narrowing_moves_masks). *)
+Theorem C12_narrowing_moves_masked : forall ta tb ida idb shift rm av mode64 opt out,
+  In ta [11; 12; 13] -> In tb [11; 12; 13] -> In shift [1; 2; 3] ->
+  let q := {| q_arch64 := mode64; q_id := 0; q_options := opt; q_extra_mask := true; q_ops := [OReg ta ida; OReg tb idb] |} in
+  let n := N.to_nat (N.shiftr (reg_size tb) shift) in
+  exists o0 o1 r, cat_vmov_narrow q shift rm av out = Some r /\ i_ops r = [o0; o1] /\
+    o_w o0 = o_w (reported_avx_vec n) /\ o_e o0 = o_e (reported_avx_vec n) /\
+    (if negb (test opt optZMask) && negb (test av kImplicitZ)
+     then test (o_flags o0) fR = true /\ o_r o0 = o_w o0
+     else test (o_flags o0) fR = false /\ o_r o0 = 0).
+Proof. exact cat_vmov_narrow_masked. Qed.
+Print Assumptions C12_narrowing_moves_masked.
+
+(* Memory forms of the narrowing moves: the store writes (source size >> shift) bytes and reads the whole source; the load writes the narrowed
+   size with the VEX/EVEX extension and reads the full memory operand. *)
+Theorem C12_narrowing_moves_memory_forms : forall tv id sz b x shift rm av mode64 opt out,
+  In tv [11; 12; 13] -> In shift [1; 2; 3] -> In sz [16; 32; 64] ->
+  (exists o0 o1, option_map i_ops (cat_vmov_narrow {| q_arch64 := mode64; q_id := 0; q_options := opt; q_extra_mask := false;
+                                                      q_ops := [OMem sz b x; OReg tv id] |} shift rm av out) = Some [o0; o1] /\
+     o_w o0 = lsb_mask (N.shiftr (reg_size tv) shift) /\ o_e o0 = 0 /\ o_r o0 = 0 /\ o_r o1 = lsb_mask (reg_size tv) /\ o_w o1 = 0) /\
+  (exists o0 o1, option_map i_ops (cat_vmov_narrow {| q_arch64 := mode64; q_id := 0; q_options := opt; q_extra_mask := false;
+                                                      q_ops := [OReg tv id; OMem sz b x] |} shift rm av out) = Some [o0; o1] /\
+     o_w o0 = o_w (reported_avx_vec (N.to_nat (N.shiftr sz shift))) /\ o_e o0 = o_e (reported_avx_vec (N.to_nat (N.shiftr sz shift))) /\
+     o_r o0 = 0 /\ o_r o1 = lsb_mask sz /\ o_w o1 = 0 /\ o_e o1 = 0).
+Proof. exact cat_vmov_narrow_memory_forms. Qed.
+Print Assumptions C12_narrowing_moves_memory_forms.
+
+(* Memory form of the widening moves (vpmovzxbq zmm, m64 ...): destination written in full with the extension, memory read in
+   (destination size >> shift) bytes. *)
+Theorem C12_widening_moves_memory_form : forall tv id sz b x shift rm av mode64 opt out,
+  In tv [11; 12; 13] -> In shift [1; 2; 3] ->
+  exists o0 o1, option_map i_ops (cat_vmov_widen {| q_arch64 := mode64; q_id := 0; q_options := opt; q_extra_mask := false;
+                                                    q_ops := [OReg tv id; OMem sz b x] |} shift rm av out) = Some [o0; o1] /\
+    o_w o0 = o_w (reported_avx_vec (N.to_nat (reg_size tv))) /\ o_e o0 = o_e (reported_avx_vec (N.to_nat (reg_size tv))) /\ o_r o0 = 0 /\
+    o_r o1 = lsb_mask (N.shiftr (reg_size tv) shift) /\ o_w o1 = 0 /\ o_e o1 = 0.
+Proof. exact cat_vmov_widen_memory_form. Qed.
+Print Assumptions C12_widening_moves_memory_form.
+Example C12_masked_forms_nonvacuous :
+  negb (test 0 optZMask) && negb (test 0 kImplicitZ) = true /\ negb (test optZMask optZMask) && negb (test 0 kImplicitZ) = false /\
+  o_w (reported_avx_vec (N.to_nat (N.shiftr (reg_size 13) 3))) = 255.
+Proof. repeat split; vm_compute; reflexivity. Qed.
